@@ -202,13 +202,62 @@ Proof.
   apply hwf_new.
 Qed.
 
+(* the application-data space ResetForRetry creates (repaired: a pending generator skip is recorded) *)
+Definition retry_app_space (g : pngen) (rnd : Z) : space :=
+  let '(skipped, pn, _) := g_pop g 0 in
+  let na0 := newSpace (g_skipping pn sph_SkipPacketInitialPeriod sph_SkipPacketMaxPeriod rnd) in
+  if skipped then sp_setH na0 (h_skipped newHist (pn - 1)) else na0.
+
+Lemma retry_app_space_spec T g rnd : 0 <= gNext g ->
+  let na := retry_app_space g rnd in
+  swf T true na /\ h_list (spH na) = [] /\ hProbes (spH na) = [] /\ gNext g <= gNext (spG na) /\
+  (forall p, In p (hSkipped (spH na)) -> gNext g <= p < gNext (spG na)) /\ hNumOut (spH na) = 0.
+Proof.
+  intros Hg. unfold retry_app_space, g_pop.
+  destruct (gSkipping g && (gNext g =? gNextToSkip g)).
+  - replace (gNext g + 1 - 1) with (gNext g) by lia.
+    assert (Hs : seq_bad newHist (gNext g) = false) by reflexivity.
+    destruct (h_skipped_spec newHist (gNext g) hwf_new Hs ltac:(lia)) as [K1 [K2 [K3 [K4 K5]]]].
+    assert (W : swf T true (sp_setH (newSpace (g_skipping (gNext g + 1) sph_SkipPacketInitialPeriod sph_SkipPacketMaxPeriod rnd)) (h_skipped newHist (gNext g)))).
+    { constructor; cbn [spH sp_setH spG newSpace spLastAE g_skipping g_newSkip gNext].
+      - exact K1.
+      - rewrite K2. constructor.
+      - rewrite K3. constructor.
+      - discriminate.
+      - rewrite K3. constructor.
+      - rewrite K3. constructor.
+      - lia.
+      - rewrite K4. intros _. lia.
+      - rewrite K5. cbn. lia. }
+    split; [exact W|]. cbn [spH sp_setH spG newSpace g_skipping g_newSkip gNext].
+    split; [rewrite K2; reflexivity|split; [rewrite K3; reflexivity|split; [lia|split; [|rewrite K5; reflexivity]]]].
+    intros p Hp. cbn in Hp. destruct Hp as [<-|[]]. lia.
+  - cbn [spH sp_setH spG newSpace g_skipping g_newSkip gNext hSkipped newHist].
+    split; [apply swf_newSpace; cbn; lia|]. repeat split; auto; try lia; cbn in *; try contradiction.
+Qed.
+
+Definition retry_folds (st : state) (si : space) : state :=
+  let st2 := fold_left retry_q (h_list (spH si)) (st_bif st 0) in
+  fold_left retry_q (h_list (spH (sApp st2))) st2.
+
+Definition retry_result (st : state) (si : space) (rnd : Z) : state :=
+  let st3 := retry_folds st si in
+  let st4 := st_spaces st3 (Some (newSpace (g_sequential (g_peek (spG si))))) (sHs st3) (retry_app_space (spG (sApp st3)) rnd) in
+  st_pto (st_alarm st4 noAlarm) 0 (sPtoM st4) (sProbes st4).
+
+Lemma resetForRetry_eq st rnd si : sInit st = Some si -> resetForRetry st rnd = retry_result st si rnd.
+Proof.
+  intros H. unfold resetForRetry, retry_result, retry_folds, retry_app_space. rewrite H. fold retry_q.
+  destruct (g_pop _ 0) as [[sk pn] g']. reflexivity.
+Qed.
+
 Lemma resetForRetry_spec T st rnd :
   Base T st -> slack st = 0 -> sInit st <> None -> prb st = [] -> osp_list (sHs st) = [] ->
   Acct T [] [] st (resetForRetry st rnd).
 Proof.
-  intros B Hsl Hi Hpr Hhs. unfold resetForRetry. destruct (sInit st) as [si|] eqn:Esi; [|congruence].
+  intros B Hsl Hi Hpr Hhs. destruct (sInit st) as [si|] eqn:Esi; [|congruence].
+  rewrite (resetForRetry_eq st rnd si Esi). unfold retry_result, retry_folds.
   set (st1 := st_bif st 0).
-  fold retry_q.
   destruct (fold_retry_q (h_list (spH si)) st1) as [S2 [Hb2 Hc2]].
   set (st2 := fold_left retry_q (h_list (spH si)) st1) in *.
   destruct (fold_retry_q (h_list (spH (sApp st2))) st2) as [S3 [Hb3 Hc3]].
@@ -221,16 +270,16 @@ Proof.
   pose proof (b_app _ _ B) as Wa.
   assert (Gi : 0 <= g_peek (spG si)).
   { pose proof (sw_gnext _ _ _ Wi). unfold g_peek. destruct (gSkipping (spG si) && (gNext (spG si) =? gNextToSkip (spG si))); lia. }
-  assert (Ga : 0 <= g_peek (spG (sApp st3))).
-  { rewrite S3'. pose proof (sw_gnext _ _ _ Wa). unfold g_peek. destruct (gSkipping (spG (sApp st)) && (gNext (spG (sApp st)) =? gNextToSkip (spG (sApp st)))); lia. }
+  destruct (retry_app_space_spec T (spG (sApp st3)) rnd) as [Wn [Ln [Pn _]]].
+  { rewrite S3'. apply (sw_gnext _ _ _ Wa). }
+  set (na := retry_app_space (spG (sApp st3)) rnd) in *. cbn zeta.
   destruct B as [B1 B2 B3 B4 B5 B6].
   constructor.
-  - constructor; cbn; rewrite ?S2', ?S4', ?S5', ?S6', ?S8'; auto.
-    + apply swf_newSpace. exact Gi.
-    + apply swf_newSpace. unfold g_skipping, g_newSkip. cbn. exact Ga.
+  - constructor; cbn [sPanic sInit sHs sApp sConf sPCAV sClient st_pto st_alarm st_spaces oswf]; rewrite ?S2', ?S4', ?S5', ?S6', ?S8'; auto.
+    apply swf_newSpace. exact Gi.
   - rewrite Hsl. unfold slack, M, pk. cbn [sget sInit sHs sApp st_pto st_alarm st_spaces sBif osp_list newSpace spH newHist h_list hPackets hFirst plist].
-    rewrite S2', Hhs, !msum_nil. rewrite Hb3, Hb2. unfold st1. cbn [sBif st_bif]. lia.
+    rewrite Ln. rewrite S2', Hhs, !msum_nil. rewrite Hb3, Hb2. unfold st1. cbn [sBif st_bif]. lia.
   - intros id. rewrite !cnt_nil. unfold E, M, MP, pk. cbn [sget sInit sHs sApp st_pto st_alarm st_spaces sCbs osp_list newSpace spH newHist h_list hPackets hFirst plist hProbes].
-    rewrite S2', Hhs, !msum_nil. rewrite Hc3, Hc2, Happ2. unfold st1. cbn [sCbs st_bif]. rewrite Esi. cbn [osp_list].
+    rewrite Ln, Pn. rewrite S2', Hhs, !msum_nil. rewrite Hc3, Hc2, Happ2. unfold st1. cbn [sCbs st_bif]. rewrite Esi. cbn [osp_list].
     fold (prb st). rewrite Hpr, msum_nil, !msum_f_id. lia.
 Qed.
